@@ -507,6 +507,66 @@ CORPUS = [
     @classmethod
     def _deserialize_from_dict(klass, d, params):
         def""")]),
+    # ------------------------------------------------------------------ C11 entropy discipline / unbiased sampling
+    B("c11-rejection-replaced-by-modulo", ["C11"], [(UT, """        if candidate_int < maxval:
+            return start + candidate_int""", """        return start + (candidate_int % maxval)""")]),
+    B("c11-accepts-candidate-equal-maxval", ["C11"], [(UT, "        if candidate_int < maxval:", "        if candidate_int <= maxval:")], tests="killed"),
+    B("c11-mask-not-applied", ["C11"], [(UT, "        candidate_bytes = mask_list_of_ints(top_byte_mask_int, enough_bytes)", "        candidate_bytes = enough_bytes")],
+      note="still unbiased, but far more than two expected draws and not the specified sampler"),
+    B("c11-mask-one-bit-short", ["C11"], [(UT, "        top_byte_mask_int = (0x1 << leftover_bits) - 1", "        top_byte_mask_int = (0x1 << (leftover_bits - 1)) - 1")],
+      note="values >= 2^(bits-1) are never produced"),
+    B("c11-draw-hoisted-out-of-loop", ["C11"], [(UT, """    while True:
+        enough_bytes = random_list_of_ints(num_bytes, entropy_f)
+        assert len(enough_bytes) == num_bytes""", """    enough_bytes = random_list_of_ints(num_bytes, entropy_f)
+    while True:
+        assert len(enough_bytes) == num_bytes""")], note="a rejected candidate loops forever / same bytes"),
+    B("c11-retry-falls-back", ["C11"], [(UT, """        if candidate_int < maxval:
+            return start + candidate_int""", """        if candidate_int < maxval:
+            return start + candidate_int
+        return start + (candidate_int >> 1)""")], note="second chance halves the rejected candidate: biased"),
+    B("c11-ed-oversampling-40", ["C11"], [(ED, "    oversized = int(binascii.hexlify(entropy_f(32+32)), 16)", "    oversized = int(binascii.hexlify(entropy_f(32+8)), 16)")], tests="killed"),
+    B("c11-int-random-scalar-small-range", ["C11", "C04"], [(GR, "        return unbiased_randrange(0, self.q, entropy_f)", "        return unbiased_randrange(0, min(self.q, 2**64), entropy_f)")]),
+    B("c11-finish-consumes-entropy", ["C11"], [(SP, """        self.inbound_message = self._extract_message(inbound_side_and_message)
+""", """        self.inbound_message = self._extract_message(inbound_side_and_message)
+        self._nonce = self.entropy_f(16)
+""")]),
+    B("c11-ctor-consumes-entropy", ["C11"], [(SP, """        self._started = False
+        self._finished = False
+""", """        self._started = False
+        self._finished = False
+        self._seed = entropy_f(8)
+""")], tests="killed"),
+    B("c11-start-mixes-os-urandom", ["C11", "C16"], [(SP, "        self.xy_scalar = g.random_scalar(self.entropy_f)", "        self.xy_scalar = g.random_scalar(lambda n: bytes(a ^ b for a, b in zip(self.entropy_f(n), os.urandom(n))))")],
+      note="scalar no longer a function of the supplied entropy"),
+    B("c11-little-endian-candidate", ["C11"], [(UT, """    s = "".join(["%02x" % b for b in l])
+    return int(s, 16)""", """    s = "".join(["%02x" % b for b in reversed(l)])
+    return int(s, 16)""")], note="mask lands on the least significant byte: candidate range is wrong"),
+    N("c11-listcomp-variable-renamed", [(UT, """    s = "".join(["%02x" % b for b in l])""", """    s = "".join(["%02x" % octet for octet in l])""")]),
+    N("c11-acceptance-negated-form", [(UT, """        if candidate_int < maxval:
+            return start + candidate_int""", """        if candidate_int >= maxval:
+            continue
+        return start + candidate_int""")]),
+    # ------------------------------------------------------------------ C15 codecs
+    B("c15-overflow-guard-loosened", ["C15"], [(UT, "    if num > maxval:\n        raise ValueError", "    if num > maxval + 1:\n        raise ValueError")]),
+    B("c15-overflow-guard-tightened", ["C15"], [(UT, "    if num > maxval:\n        raise ValueError", "    if num >= maxval:\n        raise ValueError")]),
+    B("c15-ed-scalar-width-62", ["C15"], [(ED, """    assert 0 <= y < 2**256
+    return binascii.unhexlify(("%064x" % y).encode("ascii"))[::-1]""", """    assert 0 <= y < 2**256
+    return binascii.unhexlify(("%062x" % y).encode("ascii"))[::-1]""")], tests="killed"),
+    B("c15-int-scalar-decoder-little-endian", ["C15"], [(GR, """        assert len(b) == self.scalar_size_bytes
+        i = bytes_to_number(b)""", """        assert len(b) == self.scalar_size_bytes
+        i = bytes_to_number(b[::-1])""")], tests="killed"),
+    B("c15-ed-encoder-sign-on-bit-254", ["C15"], [(ED, """    if x & 1:
+        y += 1<<255""", """    if x & 1:
+        y += 1<<254""")], tests="killed"),
+    B("c15-ed-decoder-sign-uses-y-parity", ["C15"], [(ED, "    if bool(x & 1) != bool(unclamped & (1<<255)):", "    if bool(y & 1) != bool(unclamped & (1<<255)):")], tests="killed"),
+    B("c15-size-bytes-floor", ["C15"], [(UT, "    return int(math.ceil(size_bits(maxval) / 8))", "    return int(size_bits(maxval) // 8) or 1")], tests="killed"),
+    B("c15-int-element-width-from-q", ["C15"], [(GR, "        return number_to_bytes(e._e, self.p)", "        return number_to_bytes(e._e % self.p, self.p - 1 if self.p > 2**2000 else self.p)")],
+      note="only the 2048/3072-bit groups are affected"),
+    N("c15-width-via-floor-div", [(UT, "    return int(math.ceil(size_bits(maxval) / 8))", "    return (size_bits(maxval) + 7) // 8")]),
+    N("c15-int-to-bytes-method", [(UT, """    fmt_str = "%0" + str(2*num_bytes) + "x"
+    s_hex = fmt_str % num
+    s = binascii.unhexlify(s_hex.encode("ascii"))""", """    s = num.to_bytes(num_bytes, "big")""")]),
+    N("c15-scalar-decoder-assert-removed", [(ED, "    assert len(s) == 32, len(s)\n", "")], props=["C15"], note="DESIGN 4.15: scalar-decoder asserts are not obligations"),
     # ------------------------------------------------------------------ C16 isolation
     B("c16-blinding-cache-on-params", ["C16"], [(SP, """        pw_blinding = self.my_blinding().scalarmult(self.pw_scalar)
 """, """        cache = self.params.__dict__.setdefault("_blind_cache", {})
